@@ -2,6 +2,7 @@
 C07 — future_desync/after futures deliver their operation's result exactly once.
 -/
 import DesyncModel.Spec
+import DesyncModel.Tables.FutureDrop
 import DesyncModel.Tables.Claim
 import DesyncModel.Lemmas
 import DesyncModel.Setters
